@@ -12,7 +12,7 @@ addresses only; a statement written with byte addresses denotes the statement wi
 * `C14_avr_seg_byte`: with `CodeSegSize = 0`, `WRAPMODE OFF`, the bytes emitted for a statement at byte address `pc` are those
   the word-mode model emits for `wordStmt s` at word `pc / 2` - for every mnemonic, operand list and program counter;
 * `C14_avr_byte_sound` / `C14_avr_byte_range`: soundness and range in byte mode, from the two word-mode theorems;
-* `C14_finding_avr_wrapmode_byte`: `WRAPMODE ON` does not wrap in byte mode (known finding).
+* `C14_avr_wrapmode_byte`, `C14_avr_cut_independent_of_segsize`: `WRAPMODE ON` wraps in byte mode as in word mode (repaired finding).
 -/
 namespace AslModel.C14
 open AslModel.PFile (Byte b b_toNat)
@@ -91,16 +91,20 @@ example : ∃ p c, avrDevice 4 = some (p, c) ∧ compatA p c = true ∧ c.wrap =
     legalByte c 6 ⟨.BREQ, [134]⟩ = true ∧ legalByte c 6 ⟨.BREQ, [136]⟩ = false ∧ legalByte c 6 ⟨.BREQ, [13]⟩ = false :=
   ⟨_, _, rfl, by decide, rfl, by decide, by decide, by decide, by decide, by decide, by decide, by decide⟩
 
-/-! ### findings -/
+/-! ### `WRAPMODE ON` in byte mode -/
 
-/-- **Known finding** (`avr-wrapmode-without-effect-in-byte-addressed-code-space`): on the ATmega8 (4096 words) with `WRAPMODE ON`
-`RJMP` from word 4090 to word 5 wraps around the program memory (`k = +10`) when written with word addresses, and is what
-`doc/pseudo-instructions.md` describes; written with byte addresses (`org 8180` / `rjmp 10`) it is refused, because `CutAdr` then
-uses the sign bit and mask of the doubled `SegLimits[SegCode]` on the word distance. -/
-theorem C14_finding_avr_wrapmode_byte :
+/-- **`WRAPMODE ON` wraps in byte mode as in word mode** (former finding
+`avr-wrapmode-without-effect-in-byte-addressed-code-space`, repaired in codeavr.c: `CutAdr`'s masks come from the size in words):
+on the ATmega8 (4096 words) `RJMP` from word 4090 to word 5 wraps around the program memory (`k = +10`) when written with word
+addresses, as `doc/pseudo-instructions.md` describes, and the same jump written with byte addresses (`org 8180` / `rjmp 10`)
+gives the same two bytes. -/
+theorem C14_avr_wrapmode_byte :
     ∃ p c, avrDevice 12 = some (p, c) ∧ c.wrap = true ∧
       okBytes (encodeA ⟨⟨p, true, 4090⟩, 1⟩ ⟨.RJMP, [5]⟩) = some [b 0x0a, b 0xc0] ∧ legal c 4090 ⟨.RJMP, [5]⟩ = true ∧
-      isOk (encodeA ⟨⟨p, true, 8180⟩, 0⟩ ⟨.RJMP, [10]⟩) = false ∧ legalByte c 8180 ⟨.RJMP, [10]⟩ = true :=
+      okBytes (encodeA ⟨⟨p, true, 8180⟩, 0⟩ ⟨.RJMP, [10]⟩) = some [b 0x0a, b 0xc0] ∧ legalByte c 8180 ⟨.RJMP, [10]⟩ = true :=
   ⟨_, _, rfl, rfl, by decide, by decide, by decide, by decide⟩
+
+/-- the distance of every relative branch is cut the same way in both modes, for every device, distance and CPU argument -/
+theorem C14_avr_cut_independent_of_segsize (p : Props) (css : Nat) (d : Int) : cutAdrA p css d = cutAdr p d := rfl
 
 end AslModel.C14
